@@ -81,3 +81,17 @@ func allValueOnly(ts []types.Type) bool {
 	}
 	return true
 }
+
+// hasStrConcat: the term contains string concatenation (word equations are where the string solvers are slow and the
+// string-abstracted query is worth racing).
+func hasStrConcat(t *Term) bool {
+	if t.Kind == KApp && t.Op == "str.++" {
+		return true
+	}
+	for _, a := range t.Args {
+		if hasStrConcat(a) {
+			return true
+		}
+	}
+	return false
+}
